@@ -28,6 +28,8 @@ type c26Job struct {
 	// goroutine, one after the other after LateYields yields each, concurrently with Stop.
 	Late       bool `json:"late,omitempty"`
 	LateYields int  `json:"late_yields,omitempty"`
+	// mode "waitfirst": yields of the filling goroutine before its first Go and between Gos
+	FillYields int `json:"fill_yields,omitempty"`
 }
 
 type c26Case struct {
@@ -37,7 +39,8 @@ type c26Case struct {
 	Jobs    []c26Job `json:"jobs"`
 	// Mode: "seq" = NewJob, Go…, Done, Wait one job after the other;
 	// "pipe" = all jobs are created, filled and Done first, then waited;
-	// "par" = jobs are created in order, then one goroutine per job fills, Dones and Waits it.
+	// "par" = jobs are created in order, then one goroutine per job fills, Dones and Waits it;
+	// "waitfirst" = per job the driver calls Wait right after NewJob while a second goroutine adds the tasks and calls Done.
 	Mode string `json:"mode"`
 	// Stop: "end" = after every job was waited; "mid" = from the driver after all jobs are Done, before any Wait
 	// (modes pipe/par); "conc" = from a concurrent goroutine after StopYields yields while the jobs are being filled.
@@ -64,6 +67,7 @@ type c26JobObs struct {
 	newJobErr  error
 	counts     []atomic.Int32
 	start, end []atomic.Int64
+	doneLo     atomic.Int64 // logical time just before Done was called
 	waited     atomic.Bool
 	waitErr    error // valid when waited
 	waitTick   int64
@@ -178,6 +182,11 @@ func c26Drive(c c26Case, o *c26Obs) {
 			t := t
 			d := delays[ji][t]
 			fail := failSet[ji][t]
+			if c.Mode == "waitfirst" {
+				for k := 0; k < c.Jobs[ji].FillYields; k++ {
+					runtime.Gosched()
+				}
+			}
 			o.enter(g, "Job).Go")
 			jobs[ji].Go(func() error {
 				jo.counts[t].Add(1)
@@ -191,6 +200,7 @@ func c26Drive(c c26Case, o *c26Obs) {
 			})
 		}
 		o.enter(g, "Job).Done")
+		jo.doneLo.Store(o.clock.Tick())
 		if c.Jobs[ji].Callback {
 			jobs[ji].Done(func() {
 				jo.cbTick.Store(o.clock.Tick())
@@ -227,6 +237,24 @@ func c26Drive(c c26Case, o *c26Obs) {
 			}
 			fill(drv, ji)
 			wait(drv, ji)
+		}
+	case "waitfirst":
+		for ji := range c.Jobs {
+			if !newJob(drv, ji) {
+				continue
+			}
+			ji := ji
+			g := fmt.Sprintf("filler%d", ji)
+			fillerDone := kit.Go(func() {
+				o.guard(g, func() {
+					for k := 0; k < c.Jobs[ji].FillYields; k++ {
+						runtime.Gosched()
+					}
+					fill(g, ji)
+				})
+			})
+			wait(drv, ji)
+			<-fillerDone
 		}
 	case "pipe":
 		for ji := range c.Jobs {
@@ -422,10 +450,11 @@ func c26Judge(c c26Case, o *c26Obs, finished bool) ([]c08Finding, c26Stats) {
 				}
 			}
 		}
-		if !c.Serial {
-			if e := jo.waitTick; sp.ran > 0 && e < sp.last {
-				add("C26/wait-before-tasks-ended", "job %d Wait returned at logical time %d before its last task ended (%d)", ji, e, sp.last)
-			}
+		if e := jo.waitTick; sp.ran > 0 && e < sp.last {
+			add("C26/wait-before-tasks-ended", "job %d Wait returned at logical time %d before its last task ended (%d)", ji, e, sp.last)
+		}
+		if d := jo.doneLo.Load(); d == 0 || jo.waitTick < d {
+			add("C26/wait-returned-before-done", "job %d Wait returned at logical time %d, before Done was called (%d; 0 = not yet called) while tasks could still be added", ji, jo.waitTick, d)
 		}
 		if n := jo.cbCount.Load(); n > 1 {
 			add("C26/callback-twice", "job %d completion callback ran %d times", ji, n)
@@ -483,9 +512,9 @@ func c26Gen(rng *rand.Rand) c26Case {
 		c.Workers = 1 + rng.IntN(3)
 	}
 	nj := 1 + rng.IntN(5)
-	c.Mode = []string{"seq", "pipe", "par"}[rng.IntN(3)]
+	c.Mode = []string{"seq", "pipe", "par", "waitfirst"}[rng.IntN(4)]
 	c.Stop = "end"
-	if c.Mode != "seq" {
+	if c.Mode == "pipe" || c.Mode == "par" {
 		switch rng.IntN(4) {
 		case 0:
 			c.Stop = "mid"
@@ -509,6 +538,9 @@ func c26Gen(rng *rand.Rand) c26Case {
 			j.Tasks = 1 + rng.IntN(3)
 		}
 		j.Backlog = j.Tasks + rng.IntN(3)
+		if c.Mode == "waitfirst" {
+			j.FillYields = rng.IntN(40)
+		}
 		if c.Stop == "end" && rng.IntN(4) == 0 {
 			j.Backlog = rng.IntN(j.Tasks + 1) // Go blocks until the pool picks the job's tasks up
 		}
@@ -590,7 +622,7 @@ func c26NewObs(c c26Case) *c26Obs {
 
 func TestC26(t *testing.T) {
 	r := kit.Start(t, "C26", "exploration")
-	r.Rule("case = a fresh pool (1..16 workers, or the serial implementation) and 1..5 jobs of 0..200 tasks with failing tasks anywhere, task backlogs above and below the task count, optional completion callbacks, PRNG delays in the tasks; jobs are submitted one after the other, pipelined, or filled and waited by one goroutine per job; Stop comes after all waits, between Done and Wait, or from a concurrent goroutine; afterwards a future NewJob is tried. Task start/end, Wait and Stop returns are stamped by one atomic logical clock and judged offline; anything that does not return is judged by the quiescence (deadlock-witness) detector. Non-trivial = at least two tasks ran; distinct = distinct (pool size, mode, stop placement, per-job task count / failing set / backlog).")
+	r.Rule("case = a fresh pool (1..16 workers, or the serial implementation) and 1..5 jobs of 0..200 tasks with failing tasks anywhere, task backlogs above and below the task count, optional completion callbacks, PRNG delays in the tasks; jobs are submitted one after the other, pipelined, filled and waited by one goroutine per job, or waited by the driver while a second goroutine still adds tasks and calls Done; Stop comes after all waits, between Done and Wait, or from a concurrent goroutine; afterwards a future NewJob is tried. Task start/end, Wait and Stop returns are stamped by one atomic logical clock and judged offline; anything that does not return is judged by the quiescence (deadlock-witness) detector. Non-trivial = at least two tasks ran; distinct = distinct (pool size, mode, stop placement, per-job task count / failing set / backlog).")
 	r.Assume(
 		"NewJob is not called concurrently with Stop (jobs are either submitted before Stop is called = pending/running, or after it returned = future); Stop is called once",
 		"a job that reports ErrShutdown is a job none of whose tasks ran; a job whose first task started before Stop was called is not 'pending' and reports its normal result",
@@ -743,7 +775,13 @@ func TestC26(t *testing.T) {
 	for i := 0; i < n && hangs < 3 && r.Violations() < 20; i++ {
 		c := c26Gen(rng)
 		if i%10 == 9 {
-			c.Serial, c.Mode, c.Stop = true, "seq", "end"
+			c.Serial, c.Stop = true, "end"
+			if c.Mode != "waitfirst" {
+				c.Mode = "seq"
+			}
+			for k := range c.Jobs {
+				c.Jobs[k].Late = false
+			}
 		}
 		judge(c)
 	}
